@@ -52,7 +52,21 @@ func V4Wire(maxOpts, maxVal, mutate int) *rapid.Generator[[]byte] {
 		var ins []refv4.Instance
 		for _, o := range c.Opts {
 			v := []byte(o.Val)
-			mode := rapid.IntRange(0, 3).Draw(t, "split")
+			mode := rapid.IntRange(0, 4).Draw(t, "split")
+			if mode == 4 { // hundreds of 1-byte (and a few empty) instances of one code
+				if len(v) == 0 {
+					ins = append(ins, refv4.Instance{Code: o.Code})
+				}
+				for len(v) > 0 {
+					n := 1
+					if rapid.IntRange(0, 40).Draw(t, "empty") == 0 {
+						n = 0
+					}
+					ins = append(ins, refv4.Instance{Code: o.Code, Val: v[:n]})
+					v = v[n:]
+				}
+				continue
+			}
 			if len(v) > 255 && mode == 3 {
 				mode = 0
 			}
